@@ -1,7 +1,7 @@
 (* C08 -- point-in-time restore copies an exact, valid prefix or nothing.
    Only statements closed by [exact]; proofs live in proofs/PitrProofs.v.
    The checksum function is universally quantified ([crc]). *)
-From KS Require Import lib.Base lib.PitrWire model.Pitr proofs.PitrProofs proofs.PitrBatchProofs proofs.PitrCopyProofs.
+From KS Require Import lib.Base lib.PitrWire model.Pitr proofs.PitrProofs proofs.PitrBatchProofs proofs.PitrCopyProofs proofs.PitrCompleteProofs.
 Open Scope Z_scope.
 
 (* (3) a failed restore leaves no object under the target prefix (space 1) that did
@@ -30,7 +30,8 @@ Theorem C08_truncate_prefix : forall crc b T keep done,
     let kept := take_while (keep_p first T) rs in
     match keep with
     | None => kept = []
-    | Some b' => kept <> [] /\ batch_view b' = Some (base, first, kept) /\ (b' = b \/ valid_fields crc b' kept)
+    | Some b' => kept <> [] /\ batch_view b' = Some (base, first, kept) /\ (b' = b \/ valid_fields crc b' kept) /\
+                 hdr_consistent b'
     end /\
     (done = false <-> kept = rs).
 Proof. exact truncate_spec. Qed.
@@ -61,25 +62,58 @@ Theorem C08_batches_valid : forall crc T bs fuel out,
   collect crc fuel (concat bs) T = Ok out ->
   Forall (fun b' => In b' bs \/
             exists base first rs', batch_view b' = Some (base, first, rs') /\ valid_fields crc b' rs') out.
-Proof. intros crc T bs fuel out H1 H2 H3. exact (proj2 (collect_spec crc T bs fuel out H1 H2 H3)). Qed.
+Proof.
+  intros crc T bs fuel out H1 H2 H3. pose proof (proj2 (collect_spec crc T bs fuel out H1 H2 H3)) as H.
+  eapply Forall_impl; [|exact H]. intros b' [Hb _]. exact Hb.
+Qed.
 Print Assumptions C08_batches_valid.
 
-(* (1c) PARTIAL lift to the whole restore, for every object map, fault sequence,
-       cutoff and partition list: every segment object under the target prefix after
-       a successful restore existed before, or is the byte-identical copy of the source
-       segment object with the same partition and base offset, or is the segment
-       build_plan rewrote from a source segment object of that partition (to which
-       C08_prefix_segment applies).  NOT mechanised: completeness and order of the copy
-       (that exactly the segments before the last candidate are copied whole and the
-       last candidate is the one rewritten, i.e. the flattening into one record list
-       per partition) -- that part is covered by the executable model + correspondence
-       and by the implementation-side oracle. *)
+(* closure: what a restore writes satisfies the guard restores require of their input
+   (firstTimestamp = the first kept record's timestamp, maxTimestamp = the maximum over
+   the kept records, uncompressed, non-negative lastOffsetDelta, decodable) -- per
+   batch and for every batch of the rewritten final segment; so C08_truncate_prefix
+   applies again to the output: restoring a restored topic is again exact. *)
+Theorem C08_output_header_consistent : forall crc T,
+  (forall b b' done, hdr_consistent b -> truncate_batch crc b T = Ok (Some b', done) -> hdr_consistent b') /\
+  (forall bs fuel out, Forall frame_ok bs -> (length bs < fuel)%nat ->
+     collect crc fuel (concat bs) T = Ok out -> Forall hdr_consistent out).
+Proof.
+  intros crc T. split.
+  - intros b b' done Hc Ht. destruct (truncate_spec crc b T (Some b') done Hc Ht) as (? & ? & ? & _ & (_ & _ & _ & H) & _). exact H.
+  - intros bs fuel out H1 H2 H3. pose proof (proj2 (collect_spec crc T bs fuel out H1 H2 H3)) as H.
+    eapply Forall_impl; [|exact H]. intros b' [_ Hb]. exact Hb.
+Qed.
+Print Assumptions C08_output_header_consistent.
+
+(* (1c) a weaker, earlier form of the lift kept as an independent check (soundness of
+       every target object; C08_prefix below characterises the whole store exactly):
+       every segment object under the target prefix after a successful restore existed
+       before, or is the byte-identical copy of the source segment object with the same
+       partition and base offset, or is the segment build_plan rewrote from a source
+       segment object of that partition. *)
 Theorem C08_prefix_partial : forall crc s0 faults T parts summ w',
   restore crc (mkW s0 faults false) T parts = (Ok summ, w') ->
   forall k v, k_space k = 1 -> k_idx k = false -> s_get (w_objs w') k = Some v ->
     s_get s0 k = Some v \/ justified crc s0 T k v.
 Proof. exact restore_objects_justified. Qed.
 Print Assumptions C08_prefix_partial.
+
+(* (1d) completeness and order of the copy, for every object map, fault sequence,
+       cutoff and partition list: a successful restore leaves EXACTLY the store of the
+       fault-free specification [restore_spec] (model/Pitr.v, no worlds/faults/rollback):
+       starting from the initial objects, for each selected partition in ascending
+       order, with its segments sorted by base offset and lc = the first segment created
+       after T (else the last): byte-identical copies of the segment and index objects
+       0..lc-1 under the same (partition, base) and then build_plan's rewrite of segment
+       lc (nothing if it keeps no record) -- and nothing else.  With C08_prefix_segment
+       for the rewritten segment this is the prefix clause: per selected partition the
+       target holds the source records up to (excluding) the first record with ts > T
+       in the final candidate segment, byte-equal, in offset order. *)
+Theorem C08_prefix : forall crc s0 faults T parts summ w',
+  restore crc (mkW s0 faults false) T parts = (Ok summ, w') ->
+  restore_spec crc s0 T parts = Some (w_objs w').
+Proof. exact restore_complete. Qed.
+Print Assumptions C08_prefix.
 
 (* non-vacuity: a two-record batch (timestamps 1000, 1002) restored to T = 1001 is
    rewritten to one record; the fault-free run creates both target objects; a fault
@@ -97,6 +131,9 @@ Example C08_nonvacuous :
   (let '(r, w) := restore crc32c (mkW ex_store (List.repeat false 7 ++ [true]) false) 1001 [] in
    r = Err /\ w_delfail w = false /\ s_get (w_objs w) (seg_key 1 0 0) = None) /\
   (exists b', truncate_batch crc32c ex_batch 1001 = Ok (Some b', true) /\ zlen b' = 68) /\
+  (match restore_spec crc32c ex_store 1001 [] with
+   | Some s => zlen s = 4 /\ present s (seg_key 1 0 0) /\ option_map (@length Z) (s_get s (seg_key 1 0 0)) = Some (32 + 68 + 16)%nat
+   | None => False end) /\
   hdr_consistent ex_batch /\ frame_ok ex_batch /\
   recs_of ex_batch = [(0, 1000, [12;0;0;0;1;0;0]); (1, 1002, [12;0;4;2;1;0;0])].
 Proof.
